@@ -196,8 +196,8 @@ func buildItems(thorough bool) []*item {
 			}
 		case k.class == clF:
 			if thorough {
-				// every batch of <=2 over the 4 keys, every batch of 3 over 3 keys
-				graph("graph4", m4, cat(batchesOf(m4, 2), batchesOf(m3, 3)), keys4, 8, 81)
+				// every batch of <=2 over the 4 keys, every batch of 3 over 2 keys
+				graph("graph4", m4, cat(batchesOf(m4, 2), batchesOf(m2, 3)), keys4, 4, 81)
 			} else {
 				// 81 states with single mutations and one-mutation batches;
 				// 27 states with every batch of <=2 and every batch of 3 over one key
@@ -214,7 +214,7 @@ func buildItems(thorough bool) []*item {
 			}
 		case k.class == clBF:
 			if thorough {
-				graph("graph2", m2, cat(batchesOf(m2, 2), batchesOf(m2, 3)), keys2, 4, 120)
+				graph("graph2", m2, cat(batchesOf(m2, 2), batchesOf(m1, 3)), keys2, 2, 120)
 				graph("graph3", m3, nil, keys3, 1, 1000)
 			} else {
 				graph("graph2", m2a, batchesOf(m2a, 2), keys2, 1, 50)
@@ -227,11 +227,8 @@ func buildItems(thorough bool) []*item {
 		treeOps = append(treeOps, bt(st(kAPipe, v2), dl(kA)))
 		if thorough {
 			treeOps = append(treeOps, bt(dl(kA), st(kA, v2)))
-			if k.class != clF {
-				treeOps = append(treeOps, bt(st(kA, v2), st(kA, v1), dl(kAPipe)))
-			}
 			if k.class == clM || k.class == clBF {
-				treeOps = append(treeOps, bt(st(kA, v1), dl(kA)))
+				treeOps = append(treeOps, bt(st(kA, v2), st(kA, v1), dl(kAPipe)), bt(st(kA, v1), dl(kA)))
 			}
 		}
 		treeOps = append(treeOps, ctl...)
